@@ -2,6 +2,7 @@
   C05 — assembling any input terminates cleanly (property theorems).
 -/
 import Gmars.Model.Lex
+import Gmars.Proofs.CompileWF
 
 namespace Gmars.Props.C05
 open Gmars
@@ -25,5 +26,23 @@ theorem lexer_bytes_terminal (src : List UInt8) :
     ∃ pre t, lexBytes src = pre ++ [t] ∧ Lex.isTerminator t = true := by
   obtain ⟨pre, t, h, ht, _⟩ := Lex.sends_shape (decodeRunes src)
   exact ⟨pre, t, by rw [lexBytes, Lex.tokens_eq_sends, h], ht⟩
+
+/-- the compiler stage (symbol tables, EQU cycle check, assertions, substitution fixpoint, line
+    assembly, start expression) neither panics nor loops forever, for every list of source lines and
+    every configuration: the fixpoint of `expandExpression` ends within its fuel once the cycle
+    check has passed (defects F9 and F24 were exactly the two ways it did not) -/
+theorem compile_stage_no_fault {cfg : Config} {lines : List SourceLine} {ameta : AsmMeta}
+    {lexTokens : String → List Token} (hlex : ∀ s, lexTokens s ≠ []) :
+    ∀ f, compile lexTokens cfg lines ameta ≠ .error f :=
+  Compile.compile_no_fault' hlex
+
+/-- the compiler stage returns an error or a warrior, never both or neither -/
+theorem compile_stage_err_xor {cfg : Config} {lines : List SourceLine} {ameta : AsmMeta}
+    {lexTokens : String → List Token} (hlex : ∀ s, lexTokens s ≠ []) :
+    compile lexTokens cfg lines ameta = .ok none ∨
+    ∃ w, compile lexTokens cfg lines ameta = .ok (some w) := by
+  rcases Compile.compile_total (cfg := cfg) (lines := lines) (ameta := ameta) hlex with h | ⟨w, _, h, _⟩
+  · exact Or.inl h
+  · exact Or.inr ⟨w, h⟩
 
 end Gmars.Props.C05
